@@ -789,6 +789,46 @@ def close_from_other_thread_fail():
     return None
 
 
+def hangup_mid_message_fail():
+    """A device that closes itself inside receive() after it took in complete messages AND the beginning of another one (a
+    socket peer that hangs up in the middle of a message): the complete messages are handed out, then iteration stops."""
+    import socket
+    import time
+    from mido.sockets import SocketPort
+    import mido
+    whole = [mido.Message('note_on', note=1), mido.Message('control_change', control=7, value=9), mido.Message('sysex', data=(1, 2, 3))]
+    for partial in ([0x90, 0x40], [0xF0, 1, 2], [0xB0], []):
+        for how in ('iterate', 'poll'):
+            try:
+                a, b = socket.socketpair()
+                port = SocketPort('localhost', 9, conn=a)
+            except Exception:      # noqa: BLE001 - this way of building the port is not available: nothing to judge
+                return None
+            b.sendall(bytes([x for m in whole for x in m.bytes()] + partial))
+            b.close()
+            time.sleep(0.05)
+            got = []
+            try:
+                if how == 'iterate':
+                    got = list(port)
+                else:
+                    for _ in range(10):
+                        m = port.poll()
+                        if m is not None:
+                            got.append(m)
+            except Exception as e:      # noqa: BLE001
+                return f'a socket peer sent 3 messages and {partial} and hung up: {how} raised {type(e).__name__}: {e}'
+            finally:
+                try:
+                    port.close()
+                except Exception:      # noqa: BLE001
+                    pass
+            if [m.bytes() for m in got] != [m.bytes() for m in whole]:
+                return (f'a socket peer sent 3 complete messages followed by the bytes {partial} and hung up: {how} handed out '
+                        f'{[str(m) for m in got]}; the port had taken in {[str(m) for m in whole]}')
+    return None
+
+
 def run(ck):
     ck.prepare_lean(extra_targets=['MidoProofs.Props.C11b'])
     ck.run_corpus(oracle)
@@ -849,6 +889,11 @@ def run(ck):
             if f:
                 ck.oracle_fail({'one_pause': [kind, action]}, f)
     ck.evaluations += 1
+    ck.count('hangup_mid_message')
+    f = hangup_mid_message_fail()
+    ck.evaluations += 1
+    if f:
+        ck.oracle_fail({'hangup_mid_message': True}, f)
     ck.count('close_from_other_thread')
     f = close_from_other_thread_fail()
     ck.evaluations += 1
@@ -909,6 +954,8 @@ def oracle(case):
         return wrapper_close_fail()
     if 'close_from_other_thread' in case:
         return close_from_other_thread_fail()
+    if 'hangup_mid_message' in case:
+        return hangup_mid_message_fail()
     if 'multi_big_child' in case:
         return multi_big_child(case['multi_big_child'])
     if 'reset_independence' in case:
